@@ -48,7 +48,32 @@ func (g GenOut) SourcePanic() bool {
 	return strings.Contains(s, "tape:") || strings.Contains(s, "PRNG")
 }
 
-func runGen(g spg.Generator, t *tape.Tape) (out GenOut) {
+// genFn is a Generate call on some recipe.
+type genFn func() (*spg.Password, error)
+
+// generateFn turns a recipe (value or pointer) into a Generate call on an
+// addressable variable, so that the harness compiles whatever the receiver
+// kind of the library's methods is.
+func generateFn(g interface{}) genFn {
+	switch v := g.(type) {
+	case genFn:
+		return v
+	case spg.CharRecipe:
+		rec := v
+		return func() (*spg.Password, error) { return rec.Generate() }
+	case *spg.CharRecipe:
+		return func() (*spg.Password, error) { return v.Generate() }
+	case spg.WLRecipe:
+		rec := v
+		return func() (*spg.Password, error) { return rec.Generate() }
+	case *spg.WLRecipe:
+		return func() (*spg.Password, error) { return v.Generate() }
+	}
+	panic(fmt.Sprintf("generateFn: unsupported %T", g))
+}
+
+func runGen(g interface{}, t *tape.Tape) (out GenOut) {
+	f := generateFn(g)
 	if t != nil {
 		t.Install()
 	}
@@ -58,7 +83,7 @@ func runGen(g spg.Generator, t *tape.Tape) (out GenOut) {
 		}
 		tape.Restore()
 	}()
-	p, err := g.Generate()
+	p, err := f()
 	return GenOut{Pw: p, Err: err}
 }
 
@@ -127,7 +152,7 @@ func knobs(trials int, failRate float64) func() {
 }
 
 // exploreGen explores the decision tree of g.Generate().
-func exploreGen(g spg.Generator, lim explore.Limits, onLeaf func(GenOut, *tape.Tape)) *explore.Result {
+func exploreGen(g interface{}, lim explore.Limits, onLeaf func(GenOut, *tape.Tape)) *explore.Result {
 	return explore.Run(lim, func(t *tape.Tape) explore.Outcome {
 		out := runGen(g, t)
 		if !t.Cut && onLeaf != nil {
